@@ -37,7 +37,11 @@ RULE = (
     'one variant of a random real name per case, kinds cycled (case, blanks, digits, element '
     'prefix/suffix, comma, truncation, look-alikes, other-table names, title/comment cells); '
     'attenuation: table materials and synthetic materials, density 1/pm^3..1/m^3, wavelength '
-    'fm..m, cross-sections in 7 area units, scalar / 1-d / 2-d operands; a case is distinct by '
+    'fm..m, cross-sections in 7 area units, scalar / 1-d / 2-d operands; object state: live Material '
+    'objects and their copy.copy / deepcopy / dataclasses.replace / pickle descendants have every public '
+    'field (scattering_params, density, single cross-sections via dataclasses.replace, blank rows) '
+    'reassigned or changed in place between calls in an enumerated step list, also before '
+    'compute_transmission_map, each call judged against the fields at that call; a case is distinct by '
     '(function, table, blank pattern | variant kind, outcome | units, shape, decade)'
 )
 ASSUMPTIONS = [
@@ -51,7 +55,9 @@ ASSUMPTIONS = [
     'scipp refusing to broadcast variances (VariancesError) for a dense wavelength on a material '
     'whose cross-sections carry uncertainties is scipp policy: counted as undecided, not judged',
     'a material whose table row has a blank cross-section has no attenuation: the call must not '
-    'return a value (any Exception accepted)',
+    'return a value (any Exception accepted, also one raised when the Material is constructed)',
+    '"the attenuation coefficient of a material" is that of the material as it is when asked: the monitor '
+    'copies the public fields of the live object when the call starts and judges against those',
 ]
 TECHNIQUE = ('runtime monitors (sys.monitoring) on the lookup entry points and helpers plus a call-level '
              'judge for cache hits; exhaustive table walk against an independent csv/decimal re-read; '
@@ -381,21 +387,49 @@ def _has_var(v):
     return v is not None and isinstance(v, sc.Variable) and v.variances is not None
 
 
-def judge_attenuation(ctx, ev, origin):
+def snapshot_material(ev):
+    """on_start: the CURRENT public fields of the live object (the law speaks about the material as it is
+    when asked, not as it was constructed): copies, so that nothing the call does can move the reference."""
     m, wl = ev.args.get('self'), ev.args.get('wavelength')
     try:
         n = m.effective_sample_number_density
         p = m.scattering_params
         ss, sa = p.total_scattering_cross_section, p.absorption_cross_section
+        cp = lambda v: v.copy() if isinstance(v, sc.Variable) else v  # noqa: E731
+        return {'n': cp(n), 'ss': cp(ss), 'sa': cp(sa), 'wl': cp(wl), 'isotope': getattr(p, 'isotope', None),
+                'ids': (id(n), id(p))}
     except Exception:  # noqa: BLE001
+        return None
+
+
+def judge_attenuation(ctx, ev, origin):
+    m, wl = ev.args.get('self'), ev.args.get('wavelength')
+    pre = ev.pre
+    if pre is None:
         ctx.count('attenuation:unreadable_material')
         return
+    n, ss, sa, wl = pre['n'], pre['ss'], pre['sa'], pre['wl']
+    p = type('P', (), {'isotope': pre['isotope']})
+    try:
+        same = (id(m.effective_sample_number_density), id(m.scattering_params)) == pre['ids'] and \
+            all(a is b or sc.identical(a, b, equal_nan=True) for a, b in (
+                (m.effective_sample_number_density, n), (m.scattering_params.total_scattering_cross_section, ss),
+                (m.scattering_params.absorption_cross_section, sa)))
+        if not same:
+            ctx.count('attenuation:public fields of the material changed during the call (not judged)')
+    except Exception:  # noqa: BLE001
+        ctx.count('attenuation:material unreadable after the call')
+    state = origin['v'][6:] if origin['v'].startswith('state:') else None
     case = {'function': 'Material.attenuation_coefficient', 'origin': origin['v'],
             'isotope': getattr(p, 'isotope', None), 'density': describe(n),
             'sigma_s': describe(ss), 'sigma_a': describe(sa), 'wavelength': describe(wl)}
+    if state is not None:
+        case['object_state'] = state
     if ss is None or sa is None:
         ctx.event('attenuation.blank_cross_section')
         ctx.hit('att:blank_cross_section')
+        if state is not None:
+            ctx.hit('state:' + state)
         if ev.exc is None:
             ctx.violation('attenuation_from_blank', 'a material with a blank cross-section was given an '
                           f'attenuation coefficient {describe(ev.result)}', case)
@@ -467,8 +501,11 @@ def judge_attenuation(ctx, ev, origin):
     worst = float(np.max(err))
     ctx.dev('attenuation_relerr', worst)
     ctx.event('Material.attenuation_coefficient')
-    if origin['v'] != 'direct':
+    if origin['v'] == 'compute_transmission_map':
         ctx.event('Material.attenuation_coefficient[in situ]')
+    if state is not None:
+        ctx.event('Material.attenuation_coefficient[live object]')
+        ctx.hit('state:' + state)
     if worst > TOL_ATT:
         i = int(np.argmax(err))
         case['worst'] = {'got_per_m': repr(np.ravel(got)[i]), 'expected_per_m': repr(np.ravel(exp)[i]),
@@ -480,7 +517,7 @@ def judge_attenuation(ctx, ev, origin):
         near_inv = bool(np.max(si.relerr(got, inv)) < 1e-9)
         ctx.violation('attenuation_value', f'attenuation deviates from n (sigma_s + sigma_a lambda / '
                       f'1.7982 angstrom) by {worst:.3g} > {TOL_ATT:g}', case,
-                      matches_inverse_law=near_inv,
+                      matches_inverse_law=near_inv, object_state='fresh' if state in (None, 'fresh') else 'altered',
                       absorption_share=float(np.ravel(1 - no_abs / exp)[i]) if np.ravel(exp)[i] != 0 else 0.0)
 
 
@@ -692,7 +729,154 @@ def gen_attenuation(rng, ctx, sp_lookup, sp_cls, i):
     return params, n, wl, sig, name
 
 
-def in_situ_case(rng, ctx, scn_abs, sp_lookup):
+def _synthetic_params(rng, sp_cls, isotope='synthetic'):
+    """ScatteringParams with cross-sections in independent area units and decoys elsewhere."""
+    s_unit = AREA_UNITS[int(rng.integers(0, len(AREA_UNITS)))]
+    a_unit = s_unit if rng.random() < 0.5 else AREA_UNITS[int(rng.integers(0, len(AREA_UNITS)))]
+    ss_si = 10.0 ** rng.uniform(-32, -24)
+    sa_si = 10.0 ** rng.uniform(-32, -22)
+    decoy = lambda: sc.scalar(float(10.0 ** rng.uniform(-3, 3)), unit='barn')  # noqa: E731
+    return sp_cls(
+        isotope=isotope,
+        coherent_scattering_length_re=sc.scalar(float(rng.uniform(-10, 10)), unit='fm'),
+        coherent_scattering_cross_section=decoy(),
+        incoherent_scattering_cross_section=decoy(),
+        total_scattering_cross_section=sc.scalar(float(_in_unit(ss_si, s_unit)), unit=s_unit),
+        absorption_cross_section=sc.scalar(float(_in_unit(sa_si, a_unit)), unit=a_unit),
+    )
+
+
+def _row_kinds():
+    t = T()
+    plain, unc, blank = [], [], []
+    for k, row in sorted(t.scattering.items()):
+        ss, sa = row['total_scattering_cross_section'], row['absorption_cross_section']
+        if ss is None or sa is None:
+            blank.append(k)
+        elif ss.std_exact is None and sa.std_exact is None:
+            plain.append(k)
+        else:
+            unc.append(k)
+    return plain, unc, blank
+
+
+def state_sequence(rng, ctx, scn_abs, sp_cls, sp_lookup, origin):
+    """Object state: one live Material (an ordinary mutable dataclass) and the objects derived from it by
+    copy.copy / copy.deepcopy / dataclasses.replace / pickle have every public field reassigned (or changed
+    in place) between calls; after every step the attenuation is asked for again and the monitor judges it
+    against the fields the object has AT THAT CALL.  The steps are enumerated, the materials are drawn."""
+    import copy
+    import dataclasses
+    import pickle
+
+    plain, unc, blank = _row_kinds()
+    pick = lambda seq: seq[int(rng.integers(0, len(seq)))]  # noqa: E731
+
+    def params(kind=None):
+        kind = kind or ['plain', 'plain', 'unc', 'synthetic', 'synthetic'][int(rng.integers(0, 5))]
+        if kind == 'synthetic':
+            return _synthetic_params(rng, sp_cls)
+        return sp_lookup(pick(plain if kind == 'plain' else unc))
+
+    def density():
+        u = pick(DENS_UNITS)
+        return sc.scalar(float(_in_unit(10.0 ** rng.uniform(24, 31), u)), unit=u)
+
+    def ask(m, step):
+        p = m.scattering_params
+        has_var = any(_has_var(getattr(p, f)) for f in ('total_scattering_cross_section',
+                                                        'absorption_cross_section'))
+        u = pick(WAV_UNITS)
+        k = 1 if has_var or rng.random() < 0.5 else int(rng.integers(2, 6))
+        w = _in_unit(10.0 ** rng.uniform(-11, -8, size=k), u)
+        wl = _var_like(w, [] if k == 1 else ['wavelength'], u)
+        origin['v'] = 'state:' + step
+        try:
+            m.attenuation_coefficient(wl)
+        except Exception:  # noqa: BLE001  (judged by the monitor through PY_UNWIND)
+            pass
+        finally:
+            origin['v'] = 'direct'
+
+    m = scn_abs.Material(params(), density())
+    ask(m, 'fresh')
+    for _ in range(2):
+        m.scattering_params = params()
+        ask(m, 'scattering_params reassigned')
+    m.effective_sample_number_density = density()
+    ask(m, 'density reassigned')
+    m.scattering_params, m.effective_sample_number_density = params(), density()
+    ask(m, 'both fields reassigned')
+    # derived objects, specialised afterwards; the original must stay what it is
+    c = copy.copy(m)
+    ask(c, 'copy.copy')
+    c.scattering_params = params()
+    ask(c, 'copy.copy then scattering_params reassigned')
+    c.effective_sample_number_density = density()
+    ask(c, 'copy.copy then density reassigned')
+    ask(m, 'original after its copy was changed')
+    d = copy.deepcopy(m)
+    d.scattering_params = params()
+    ask(d, 'copy.deepcopy then scattering_params reassigned')
+    r = dataclasses.replace(m, scattering_params=params())
+    ask(r, 'dataclasses.replace(scattering_params)')
+    r = dataclasses.replace(m, effective_sample_number_density=density())
+    ask(r, 'dataclasses.replace(density)')
+    r.scattering_params = params()
+    ask(r, 'dataclasses.replace then scattering_params reassigned')
+    try:
+        q = pickle.loads(pickle.dumps(m))  # noqa: S301
+        q.scattering_params = params()
+        ask(q, 'pickle round trip then scattering_params reassigned')
+    except Exception as e:  # noqa: BLE001
+        ctx.count('state:pickle not possible:' + type(e).__name__)
+    ask(m, 'original after its copy was changed')
+    # one cross-section of the (frozen) parameter set replaced
+    for field in ('absorption_cross_section', 'total_scattering_cross_section'):
+        old = getattr(m.scattering_params, field)
+        u = pick(AREA_UNITS)
+        newv = sc.scalar(float(_in_unit(10.0 ** rng.uniform(-31, -24), u)), unit=u)
+        m.scattering_params = dataclasses.replace(m.scattering_params, **{field: newv})
+        ask(m, 'one cross-section replaced')
+        del old
+    # in-place changes of variables the driver owns (never of cached table results)
+    m.effective_sample_number_density = density()
+    ask(m, 'density reassigned')
+    m.effective_sample_number_density *= float(rng.uniform(1.5, 9))
+    ask(m, 'density changed in place')
+    own = _synthetic_params(rng, sp_cls)
+    m.scattering_params = own
+    ask(m, 'scattering_params reassigned')
+    own.absorption_cross_section.value = own.absorption_cross_section.value * float(rng.uniform(2, 50)) + 1e-3
+    ask(m, 'cross-section changed in place')
+    own.total_scattering_cross_section.value = own.total_scattering_cross_section.value * float(rng.uniform(2, 50))
+    ask(m, 'cross-section changed in place')
+    # blank rows: no attenuation while the blank row is there, an ordinary one afterwards
+    if blank:
+        m.scattering_params = sp_lookup(pick(blank))
+        ask(m, 'reassigned to a blank row')
+        m.scattering_params = params('plain')
+        ask(m, 'reassigned from a blank row')
+        try:
+            mb = scn_abs.Material(sp_lookup(pick(blank)), density())
+        except Exception as e:  # noqa: BLE001  (refusing the blank row already at construction is a refusal)
+            ctx.count('attenuation:blank_rejected_at_construction:' + type(e).__name__)
+        else:
+            mb.scattering_params = params('plain')
+            ask(mb, 'reassigned from a blank row')
+
+
+STATE_CLASSES = [
+    'fresh', 'scattering_params reassigned', 'density reassigned', 'both fields reassigned', 'copy.copy',
+    'copy.copy then scattering_params reassigned', 'copy.copy then density reassigned',
+    'original after its copy was changed', 'copy.deepcopy then scattering_params reassigned',
+    'dataclasses.replace(scattering_params)', 'dataclasses.replace(density)',
+    'dataclasses.replace then scattering_params reassigned', 'one cross-section replaced',
+    'density changed in place', 'cross-section changed in place', 'reassigned from a blank row',
+]
+
+
+def in_situ_case(rng, ctx, scn_abs, sp_lookup, live=False):
     """compute_transmission_map drives attenuation_coefficient once per wavelength."""
     t = T()
     # rows whose cross-sections carry no uncertainty: with variances the pipeline *after*
@@ -703,8 +887,18 @@ def in_situ_case(rng, ctx, scn_abs, sp_lookup):
              and row['total_scattering_cross_section'].std_exact is None
              and row['absorption_cross_section'].std_exact is None]
     name = plain[int(rng.integers(0, len(plain)))]
-    material = scn_abs.Material(sp_lookup(name), sc.scalar(float(10 ** rng.uniform(-3, -1)),
-                                                           unit='1/angstrom^3'))
+    dens = sc.scalar(float(10 ** rng.uniform(-3, -1)), unit='1/angstrom^3')
+    if live:
+        # the pipeline is handed a live object whose fields were reassigned after construction
+        import copy
+        first = scn_abs.Material(sp_lookup(plain[int(rng.integers(0, len(plain)))]),
+                                 sc.scalar(float(10 ** rng.uniform(-3, -1)), unit='1/angstrom^3'))
+        material = copy.copy(first)
+        material.scattering_params = sp_lookup(name)
+        material.effective_sample_number_density = dens
+        ctx.hit('att:in_situ with a reassigned material')
+    else:
+        material = scn_abs.Material(sp_lookup(name), dens)
     cyl = scn_abs.Cylinder(sc.vector([0, 1.0, 0]), sc.vector([0, 0, 0.0], unit='mm'),
                            sc.scalar(float(rng.uniform(0.5, 3)), unit='mm'),
                            sc.scalar(float(rng.uniform(0.5, 3)), unit='mm'))
@@ -723,7 +917,8 @@ def in_situ_case(rng, ctx, scn_abs, sp_lookup):
 def plan(tier, seed):
     near = 320 if tier == 'quick' else 1250
     att = 32 if tier == 'quick' else 1250
-    return [{'near': near, 'att': att, 'insitu': 2 if tier == 'quick' else 12, 'nshards': N_SHARDS}
+    return [{'near': near, 'att': att, 'insitu': 2 if tier == 'quick' else 12,
+             'state': 3 if tier == 'quick' else 60, 'nshards': N_SHARDS}
             for _ in range(N_SHARDS)]
 
 
@@ -763,13 +958,15 @@ def requirements(tier):
             'reference_wavelength': n_att // 4,
             'Material.attenuation_coefficient': n_att // 3,
             'Material.attenuation_coefficient[in situ]': 3 * N_SHARDS,
+            'Material.attenuation_coefficient[live object]': (3 if tier == 'quick' else 60) * 15 * N_SHARDS,
             'history.same_answer': 2 * 4046,
             'near_miss.rejected': n_near,
         },
         'forced': ['kind:' + k for k in KINDS] + [
             'att:table', 'att:synthetic', 'att:scalar', 'att:dense_1d', 'att:dense_2d', 'att:in_situ',
             'att:sigma_a=0', 'att:sigma_s=0', 'cache:hit', 'cache:miss_after_eviction',
-        ] + _row_classes_present(),
+            'att:in_situ with a reassigned material',
+        ] + ['state:' + c for c in STATE_CLASSES] + _row_classes_present(),
         'counters': {
             'rows_decided:scattering_parameters.csv': rows['scattering_parameters.csv'],
             'rows_decided:atomic_weights.csv': rows['atomic_weights.csv'],
@@ -861,6 +1058,7 @@ def run(shard, ctx):
     tr.watch(A.reference_wavelength, 'reference_wavelength',
              on_return=safe('reference_wavelength', lambda ev: judge_reference_wavelength(ctx, ev)))
     tr.watch(M.Material.attenuation_coefficient, 'Material.attenuation_coefficient',
+             on_start=snapshot_material,
              on_return=safe('attenuation_coefficient', lambda ev: judge_attenuation(ctx, ev, origin)))
 
     entry = {'Atom.for_isotope': A.Atom.for_isotope,
@@ -990,18 +1188,42 @@ def run(shard, ctx):
                 ctx.oracle_error('C20 attenuation generator')
                 continue
             before = ctx.n_violations
+            material = None
             try:
-                scn_abs.Material(params, n).attenuation_coefficient(wl)
-            except Exception:  # noqa: BLE001  (judged by the monitor through PY_UNWIND)
-                pass
+                material = scn_abs.Material(params, n)
+            except Exception as e:  # noqa: BLE001
+                if params.total_scattering_cross_section is None or params.absorption_cross_section is None:
+                    # "no attenuation for a blank row" may be enforced when the material is built
+                    ctx.event('attenuation.blank_cross_section')
+                    ctx.hit('att:blank_cross_section')
+                    ctx.count('attenuation:blank_rejected_at_construction:' + type(e).__name__)
+                else:
+                    ctx.violation('material_construction_raised',
+                                  f'Material(...) raised {type(e).__name__}: {e}',
+                                  {'function': 'Material', 'isotope': name, 'density': describe(n)},
+                                  exc=type(e).__name__)
+            if material is not None:
+                try:
+                    material.attenuation_coefficient(wl)
+                except Exception:  # noqa: BLE001  (judged by the monitor through PY_UNWIND)
+                    pass
             ctx.case(sig)
             if i < 2 or ctx.n_violations > before:
                 ctx.sample({'function': 'Material.attenuation_coefficient', 'isotope': name,
                             'density': describe(n), 'wavelength': describe(wl), 'sig': sig})
-        origin['v'] = 'compute_transmission_map'
-        for _ in range(int(shard.get('insitu', 0))):
+        # --------------------------------------------------------- object state ---
+        for k in range(int(shard.get('state', 0))):
+            srng = np.random.Generator(np.random.PCG64([shard['seed'], idx, 20, 7, k]))
             try:
-                sig = in_situ_case(rng, ctx, scn_abs, sp_lookup)
+                state_sequence(srng, ctx, scn_abs, A.ScatteringParams, sp_lookup, origin)
+            except Exception:  # noqa: BLE001
+                ctx.oracle_error('C20 object-state driver')
+            origin['v'] = 'direct'
+            ctx.case(('attenuation', 'object_state', k % 4))
+        origin['v'] = 'compute_transmission_map'
+        for k in range(int(shard.get('insitu', 0))):
+            try:
+                sig = in_situ_case(rng, ctx, scn_abs, sp_lookup, live=k % 2 == 1)
             except Exception as e:  # noqa: BLE001
                 # what happens downstream of attenuation_coefficient belongs to C18; the calls the
                 # monitor saw were judged, and requirements() insists that enough were seen
